@@ -331,18 +331,95 @@ def history_case(ctx, LP, rng, nops):
             return
 
 
-def infnorm_case(ctx, LP, rng):
+def peaked_poly(rng):
+    """see infnorm_case(peaked=True)"""
+    n = int(rng.choice([40, 40, 39, 38, 36, 32, 28]))
+    hi = int(rng.integers(max(2 * n - 2 - 50, n - 1), min(50, 2 * n - 2) + 1))
+    dmin = hi - 2 * n + 2
+    ks = np.arange(dmin, dmin + 2 * n, 2)
+    wts = np.abs(ks - ks.mean()) ** float(rng.choice([0, 1, 2, 4])) + (1e-3 if rng.random() < 0.5 else 0.0)
+    if rng.random() < 0.6:
+        r_ = float(rng.choice([0.25, 0.01, 0.5, 0.1]))
+        wts = np.where((np.arange(n) == 0) | (np.arange(n) == n - 1), 1.0, np.where((np.arange(n) == 1) | (np.arange(n) == n - 2), r_, 0.0))
+    th0 = math.pi / 2 if rng.random() < 0.3 else float(rng.uniform(0.05, math.pi - 0.05))
+    coefs = wts * np.cos((ks - ks.mean()) * th0)      # all terms in phase at th0 (up to the mirrored copy at -th0)
+    s_ = float(np.abs(coefs).max())
+    if s_ < 1e-9:
+        coefs, s_ = wts, float(np.abs(wts).max())
+    return [float(c / s_) for c in coefs], dmin
+
+
+def peaked_screen(ctx, LP, rng, ncand, nkeep):
+    """search for a failing input of the sup-norm clause: many sharply peaked long polynomials are screened in floating
+    point (library value against a dense-grid estimate of the true maximum); the candidates with the largest apparent
+    undershoot go through the exact decision (certificate / exact witness point) of infnorm_case"""
+    cands = []
+    th = np.linspace(0, math.pi / 2, 20001)
+    for _ in range(ncand):
+        coefs, dmin = peaked_poly(rng)
+        with core.quiet():
+            val = float(mk(LP.LPoly, coefs, dmin).inf_norm)
+        ks = np.arange(dmin, dmin + 2 * len(coefs), 2)
+        v = np.abs(np.exp(1j * np.outer(th, ks)).dot(np.array(coefs)))
+        j = int(np.argmax(v))
+        est = v[j]
+        if 0 < j < len(th) - 1:
+            a_, b_, c_ = v[j - 1], v[j], v[j + 1]
+            den_ = a_ - 2 * b_ + c_
+            if den_ != 0:
+                est = b_ - 0.125 * (a_ - c_) ** 2 / den_
+        cands.append((1 - val / est, coefs, dmin))
+        ctx.count("inf_norm:peaked-screened")
+    cands.sort(key=lambda t: -t[0])
+    ctx.extra["largest_screened_undershoot_percent"] = round(100 * cands[0][0], 5)
+    for _, coefs, dmin in cands[:nkeep]:
+        infnorm_case(ctx, LP, rng, peaked=True, given=(coefs, dmin))
+
+
+def infnorm_case(ctx, LP, rng, peaked=False, given=None):
     """sampled sup norm within 0.1 % of the true maximum modulus (degree <= 50)"""
     LPoly = LP.LPoly
-    n = int(rng.integers(1, 27))
-    dmin = -int(rng.integers(0, 51))
-    n = min(n, (50 - dmin) // 2 + 1)
-    n = max(n, 1)
-    while max(-dmin, 2 * n + dmin - 2) > 50:
-        n -= 1
-    coefs, klass = gens.coef_vector(rng, n, str(rng.choice(["float", "int", "sparse", "single", "dyadic"])))
-    if all(c == 0 for c in coefs):
-        coefs[0] = 1.0
+    if given is not None:
+        coefs, dmin = given
+        n = len(coefs)
+        klass = "peaked"
+        ctx.count("inf_norm:peaked")
+    elif peaked:
+        # the hard inputs for a SAMPLED sup norm: long vectors (up to the property's 40 coefficients, powers up to 50 in
+        # magnitude) with the weight at both ends of the power range and all terms in phase at one angle - a single sharp
+        # peak, which falls between the sample angles of any grid that is too coarse
+        n = int(rng.choice([40, 40, 39, 38, 36, 32, 28]))
+        hi = int(rng.integers(max(2 * n - 2 - 50, n - 1), min(50, 2 * n - 2) + 1))     # highest power; lowest = hi - 2n + 2 >= -50
+        dmin = hi - 2 * n + 2
+        ks = np.arange(dmin, dmin + 2 * n, 2)
+        wts = np.abs(ks) ** float(rng.choice([0, 1, 2, 4])) + (1e-3 if rng.random() < 0.5 else 0.0)
+        ends_only = rng.random() < 0.7
+        if ends_only:
+            # all weight on the two ends of the power range: the modulus then has (hi-lo)/2 equally sharp peaks (the
+            # variance of the powers, which sets the sharpness, is maximal), some of which lie midway between samples
+            r_ = float(rng.choice([0.0, 0.25, 0.01, 0.5]))
+            wts = np.where((np.arange(n) == 0) | (np.arange(n) == n - 1), 1.0, np.where((np.arange(n) == 1) | (np.arange(n) == n - 2), r_, 0.0))
+        th0 = math.pi / 2 if rng.random() < 0.4 else float(rng.uniform(0.05, math.pi - 0.05))
+        ph = 0.0 if rng.random() < 0.5 else math.pi / 2
+        coefs = [float(v) for v in wts * np.cos(ks * th0 + ph)]
+        if ends_only:
+            coefs = [float(v) for v in wts * rng.choice([-1.0, 1.0], size=n)]
+        if max(abs(c) for c in coefs) < 1e-9:
+            coefs = [float(v) for v in wts * np.cos(ks * th0)]
+        s_ = max(abs(c) for c in coefs)
+        coefs = [c / s_ for c in coefs]
+        klass = "peaked"
+        ctx.count("inf_norm:peaked")
+    else:
+        n = int(rng.integers(1, 27))
+        dmin = -int(rng.integers(0, 51))
+        n = min(n, (50 - dmin) // 2 + 1)
+        n = max(n, 1)
+        while max(-dmin, 2 * n + dmin - 2) > 50:
+            n -= 1
+        coefs, klass = gens.coef_vector(rng, n, str(rng.choice(["float", "int", "sparse", "single", "dyadic"])))
+        if all(c == 0 for c in coefs):
+            coefs[0] = 1.0
     p = mk(LPoly, coefs, dmin)
     with core.quiet():
         val = float(p.inf_norm)
@@ -359,11 +436,17 @@ def infnorm_case(ctx, LP, rng):
     cert = r.split()[0] == "true"
     ctx.count("sup-evals", int(r.split()[1]))
     # lower side: some point has |f| >= inf_norm / (1 + 1e-3)   (exact point evaluation)
-    th = np.linspace(0, math.pi / 2, 4001)
+    th = np.linspace(0, math.pi / 2, 4001 if not peaked else 40001)
     ks = np.arange(dmin, dmin + 2 * n, 2)
     vals = np.abs(np.exp(1j * np.outer(th, ks)).dot(np.array(coefs)))
     j = int(np.argmax(vals))
-    t = Fraction(math.tan(th[j] / 2)).limit_denominator(1 << 30)
+    if peaked and 0 < j < len(th) - 1:      # refine the witness angle (parabola through the three best samples)
+        a_, b_, c_ = vals[j - 1], vals[j], vals[j + 1]
+        den_ = a_ - 2 * b_ + c_
+        thj = th[j] + (0.5 * (a_ - c_) / den_ if den_ != 0 else 0.0) * (th[1] - th[0])
+    else:
+        thj = th[j]
+    t = Fraction(math.tan(thj / 2)).limit_denominator(1 << 40)
     v2 = pr(d.ask("sup.point %d %s %s" % (dmin, ",".join("%s;0" % rs(c) for c in cs), rs(t))))
     ctx.case(["inf", coefs, dmin], n >= 2, {"op": "inf_norm", "coefs": coefs[:6], "dmin": dmin, "inf_norm": val,
                                              "certified_upper": cert, "witness_t": str(t)})
@@ -406,6 +489,9 @@ def run(tier, seed):
         history_case(ctx, LP, ctx.rng, int(ctx.rng.integers(1, 13)))
     for _ in range(ninf):
         infnorm_case(ctx, LP, ctx.rng)
+    for _ in range(ninf // 8):
+        infnorm_case(ctx, LP, ctx.rng, peaked=True)
+    peaked_screen(ctx, LP, ctx.rng, 8 * ninf, max(3, ninf // 8))
     ctx.assumptions = [
         "binary64 results are compared with the exact model value within 2^-45 * (|a|_1+1)(|b|_1+1) per coefficient",
         "NumPy / CPython semantics underneath LPoly",
